@@ -372,6 +372,13 @@ def suite_filter_pair(rng, n, stats, kinds=None):
             b = rng.choice(ls) if rng.random() < 0.7 else a
             if rng.random() < 0.05:
                 a = np.nan
+            if BODY_ERRORS and rng.random() < 0.04:
+                # a non-string, non-missing argument: the tokenizer raises TypeError (unless the other one is missing;
+                # OverlapFilter returns early on falsy values)
+                if rng.random() < 0.5:
+                    a = rng.choice([5, 0, 2.5, True, False])
+                else:
+                    b = rng.choice([5, 0, 2.5, True, False])
             pairs.append((a, b))
         am = rng.random() < 0.3
         ae = rng.random() < 0.6
@@ -388,12 +395,18 @@ def suite_filter_pair(rng, n, stats, kinds=None):
                 req = {'op': 'filter_pair', 'kind': kind, 'allow_empty': ae, 'allow_missing': am}
                 req.update(fcfg(m, t, ts))
                 stats.hit('filter_pair.%s.%s' % (kind, m))
-            exp = [bool(f.filter_pair(a, b)) for a, b in pairs]
+            exp = []
+            for a, b in pairs:
+                try:
+                    exp.append(bool(f.filter_pair(a, b)))
+                except TypeError:
+                    exp.append({'err': 'TypeError'})
         except (OverflowError, ZeroDivisionError):
             continue
         req.update({'toks': toks, 'return_set': bool(ts.obj.get_return_set()), 'pairs': [[cell(a), cell(b)] for a, b in pairs]})
-        stats.hit('filter_pair.dropped', sum(exp))
-        stats.hit('filter_pair.kept', len(exp) - sum(exp))
+        stats.hit('filter_pair.dropped', sum(1 for e in exp if e is True))
+        stats.hit('filter_pair.kept', sum(1 for e in exp if e is False))
+        stats.hit('filter_pair.raised', sum(1 for e in exp if isinstance(e, dict)))
         cases.append((req, {'ok': exp}, None))
     return cases
 
@@ -474,10 +487,10 @@ def suite_strings(rng, n, stats):
 
 
 # generate inputs on which the BODY of an entry point raises (non-string join values, '_id' column clash)
-BODY_ERRORS = _os.environ.get('SSJ_GEN_BODY_ERRORS', '0') == '1'
+BODY_ERRORS = _os.environ.get('SSJ_GEN_BODY_ERRORS', '1') == '1'
 
 
-def gen_join_frames(rng, ts, stats, missing=None, big=False, str_dtype=None):
+def gen_join_frames(rng, ts, stats, missing=None, big=False, str_dtype=None, nonstring=True):
     if str_dtype is None:
         str_dtype = rng.random() < 0.15
     stats.hit('frames.dtype.' + ('str' if str_dtype else 'object'))
@@ -485,7 +498,7 @@ def gen_join_frames(rng, ts, stats, missing=None, big=False, str_dtype=None):
     mp = rng.choice([0.0, 0.0, 0.2, 0.5]) if missing is None else missing
     allv = gen_strings_for(rng, ts, nl + nr, big=big, missing_p=mp)
     lv, rv = allv[:nl], allv[nl:]
-    if BODY_ERRORS and not str_dtype and rng.random() < 0.04:
+    if BODY_ERRORS and nonstring and not str_dtype and rng.random() < 0.04:
         # a present join value that is not a string (object column): the tokenizer raises TypeError inside the body
         side = lv if (rng.random() < 0.5 and lv) else rv
         if side:
@@ -791,7 +804,8 @@ def suite_apply_matcher(rng, n, stats):
         use_tok = rng.random() < 0.75
         ts = gen_tokenizer(rng) if use_tok else None
         ts_gen = ts or TokSpec('ws')
-        L, R, lk, rk, la, ra = gen_join_frames(rng, ts_gen, stats)
+        # without a tokenizer the raw values go to the (user's) similarity function: what it does with a non-string is its business
+        L, R, lk, rk, la, ra = gen_join_frames(rng, ts_gen, stats, nonstring=use_tok)
         C, clk, crk = gen_candset(rng, L, R, lk, rk, stats)
         L0, R0, la0, ra0 = L, R, la, ra
         L, R, lk, rk, la, ra, C, clk, crk, bad = malform(rng, stats, L, R, lk, rk, la, ra, C, clk, crk, numeric=False)
